@@ -68,6 +68,8 @@ type Sim struct {
 	C        *Choices
 	tasks    []*Task
 	back     [2]int
+	closed   bool
+	ran      bool
 	cur      *Task
 	last     *Task
 	seq      int64
@@ -397,6 +399,7 @@ var HangFile string
 // Run executes the simulation until every started task finished, a deadlock is found
 // or maxSteps is exhausted, then tears all tasks down.
 func (s *Sim) Run(maxSteps int) {
+	s.ran = true
 	s.strategy = s.C.Choose(nStrat, "strategy")
 	if s.strategy == StratPCT {
 		for _, t := range s.tasks {
@@ -497,7 +500,16 @@ func (s *Sim) setAborting() { s.aborting = true }
 //go:norace
 func (s *Sim) taskState(t *Task) int { return t.state }
 
+// Close releases what a Sim holds when it was created but never Run (a scenario without tasks, or one that returned
+// before Run): pipes and parked goroutines. After Run it does nothing.
+func (s *Sim) Close() {
+	if !s.closed && !s.ran {
+		s.teardown()
+	}
+}
+
 func (s *Sim) teardown() {
+	s.closed = true
 	s.setAborting()
 	for _, t := range s.tasks {
 		for s.taskState(t) != stDone {
